@@ -408,6 +408,7 @@ func init() {
 		par := fs.Int("par", 8, "traces run in parallel")
 		_ = fs.Parse(args)
 		kernel.InstallHooks()
+		ro.SetVerifHook(kernel.DetachHook)
 		r := rand.New(rand.NewSource(*seed))
 		scs := make([]kernel.DetachScenario, *n)
 		res := make([][]rec.Ev, *n)
